@@ -230,7 +230,127 @@ fn c01(seed: u64, case: u64, out: &Out) {
 }
 
 // ====================================================================== C02
+/// C02, joins issued from inside tasks: a parent task submits children and joins them from its own coroutine
+/// (`wait_task_result` then runs queued tasks inline instead of blocking the thread).
+fn c02_nested(seed: u64, case: u64, out: &Out) {
+    let mut rng = Rng::for_case(seed ^ 0xC02B, case);
+    let parents = *rng.pick(&[1usize, 2, 4, 8]);
+    let kids = rng.usize(2, 12);
+    let workers = *rng.pick(&[1usize, 2, 8, 64]);
+    out.begin(case, jobj! {"mode" => "joins issued from inside tasks", "event_loops" => 1, "parent_tasks" => parents, "children_per_parent" => kids, "pool_max_size" => workers,
+        "children" => "instant / busy 1 ms / delay 5 ms / panic with a formatted message; the parent joins each of them with a 5 s timeout from its own coroutine"});
+    init(1, workers, 0, 0);
+    // (uid, want, got, join deadline)
+    let results: Arc<Mutex<Vec<(usize, String, String, u64)>>> = Arc::default();
+    let finished_at: Arc<Mutex<std::collections::HashMap<usize, u64>>> = Arc::default();
+    let done = Arc::new(AtomicUsize::new(0));
+    let mut hs = vec![];
+    for p in 0..parents {
+        let (results, done, finished_at) = (results.clone(), done.clone(), finished_at.clone());
+        let mut r = Rng::for_case(seed ^ 0xC02C, case * 64 + p as u64);
+        hs.push(EventLoops::submit_task(None, move |_| {
+            let mut handles = vec![];
+            for k in 0..kids {
+                let uid = p * 1000 + k;
+                let kind = r.below(4);
+                let fin = finished_at.clone();
+                let h = EventLoops::submit_task(None, move |_| {
+                    // the finish stamp is taken when the body is left, by a return or by a panic
+                    struct Stamp(Arc<Mutex<std::collections::HashMap<usize, u64>>>, usize);
+                    impl Drop for Stamp {
+                        fn drop(&mut self) {
+                            self.0.lock().unwrap().insert(self.1, mono_ns());
+                        }
+                    }
+                    let _stamp = Stamp(fin, uid);
+                    match kind {
+                        1 => {
+                            let t = Instant::now();
+                            while t.elapsed() < Duration::from_millis(1) {
+                                std::hint::spin_loop();
+                            }
+                        }
+                        2 => {
+                            if let Some(s) = SchedulableSuspender::current() {
+                                s.delay(Duration::from_millis(5));
+                            }
+                        }
+                        3 => panic!("formatted message of child {uid}"),
+                        _ => {}
+                    }
+                    Some(uid + 1)
+                }, None, None);
+                handles.push((uid, kind, h));
+                // some parents join right away, others first submit everything
+                if r.chance(1, 2) {
+                    let (uid, kind, h) = handles.pop().expect("just pushed");
+                    let deadline = mono_ns() + 5_000_000_000;
+                    let got = h.timeout_join(Duration::from_secs(5));
+                    results.lock().unwrap().push((uid, want_of(uid, kind), got_str(&got), deadline));
+                    std::mem::forget(h);
+                }
+            }
+            for (uid, kind, h) in handles {
+                let deadline = mono_ns() + 5_000_000_000;
+                let got = h.timeout_join(Duration::from_secs(5));
+                results.lock().unwrap().push((uid, want_of(uid, kind), got_str(&got), deadline));
+                std::mem::forget(h);
+            }
+            done.fetch_add(1, Ordering::SeqCst);
+            Some(p)
+        }, None, None));
+    }
+    fn want_of(uid: usize, kind: u64) -> String {
+        if kind == 3 { format!("Err(formatted message of child {uid})") } else { format!("Ok(Some({}))", uid + 1) }
+    }
+    fn got_str(got: &std::io::Result<Result<Option<usize>, &str>>) -> String {
+        match got {
+            Ok(Ok(v)) => format!("Ok({v:?})"),
+            Ok(Err(m)) => format!("Err({m})"),
+            Err(e) => format!("JoinError({:?})", e.kind()),
+        }
+    }
+    let t0 = Instant::now();
+    while done.load(Ordering::SeqCst) < parents && t0.elapsed() < Duration::from_secs(40) {
+        std::thread::sleep(Duration::from_millis(5));
+    }
+    let finished_parents = done.load(Ordering::SeqCst);
+    let rs = results.lock().unwrap().clone();
+    let mut viol: Option<(String, String)> = None;
+    let fin = finished_at.lock().unwrap().clone();
+    let mut unfinished = 0usize;
+    for (uid, want, got, deadline) in &rs {
+        if got.starts_with("JoinError(TimedOut") && fin.get(uid).is_none_or(|t| *t + 200_000_000 > *deadline) {
+            // the child had not finished (well) before the deadline: a timeout is the legal answer, whatever kept the child from finishing
+            unfinished += 1;
+            continue;
+        }
+        if want != got {
+            let kind = if got.starts_with("JoinError(TimedOut") { "join-from-a-task-timed-out-although-the-task-had-finished" } else if got.starts_with("JoinError") { "join-from-a-task-failed" } else { "join-from-a-task-returned-another-outcome" };
+            viol = viol.or(Some((kind.into(), format!("child {uid}: joined {got}, its own outcome is {want}"))));
+        }
+    }
+    if viol.is_none() && finished_parents < parents {
+        // (a join must come back at its 5 s deadline at the latest, finished child or not)
+        viol = Some(("join-from-a-task-never-returned".into(), format!("{finished_parents} of {parents} parent tasks finished within 40 s ({} of {} joins returned)", rs.len(), parents * kids)));
+    }
+    let obs = jobj! {"joins" => rs.len(), "joins_expected" => parents * kids, "parents_finished" => finished_parents, "joins_that_timed_out_on_children_that_had_not_finished(not judged)" => unfinished, "wall_ms" => t0.elapsed().as_millis() as u64};
+    let fp = format!("nested|{parents}|{kids}|{workers}");
+    std::mem::forget(hs);
+    if viol.as_ref().is_some_and(|v| v.0.contains("timed-out") || v.0.contains("never-returned")) && wl_core::overloaded() {
+        out.end(case, Verdict::Inconclusive, "machine-overloaded-during-timing-case", false, &fp, obs, &viol.map(|v| v.1).unwrap_or_default());
+        return;
+    }
+    match viol {
+        Some((k, d)) => out.end(case, Verdict::Violated, &format!("C02/{k}"), true, &fp, obs, &d),
+        None => out.end(case, Verdict::Held, "", rs.len() - unfinished >= 2, &fp, obs, ""),
+    }
+}
+
 fn c02(seed: u64, case: u64, out: &Out) {
+    if case % 5 == 4 {
+        return c02_nested(seed, case, out);
+    }
     let mut rng = Rng::for_case(seed ^ 0xC02, case);
     let loops = *rng.pick(&[1usize, 2, 4]);
     let joiners = *rng.pick(&[1usize, 2, 4, 16]);
